@@ -1,0 +1,14 @@
+//go:build verif
+
+package docker
+
+import (
+	dockerapi "github.com/docker/docker/client"
+	enginetypes "github.com/projecteru2/core/engine/types"
+	coretypes "github.com/projecteru2/core/types"
+)
+
+// NewEngineForVerif builds an Engine on a caller-supplied Docker API client (verification harness only).
+func NewEngineForVerif(client dockerapi.APIClient, config coretypes.Config, ep *enginetypes.Params) *Engine {
+	return &Engine{client: client, config: config, ep: ep}
+}
